@@ -8,8 +8,8 @@ Definition tag (i : Z) : list Z := [-100 - i].
 
 (* ---------- decoders ---------- *)
 Definition dPolicy : dec policy :=
-  let* a := dZ in let* e := dZ in let* es := dList dZ in let* x := dOpt dZ in
-  ret (mkPolicy a e es x).
+  let* a := dZ in let* e := dZ in let* es := dList dZ in let* x := dOpt dZ in let* t := dZ in
+  ret (mkPolicy a e es x t).
 Definition dPart : dec part :=
   let* a := dZ in let* b := dZ in let* c := dZ in let* d := dZ in ret (mkPart a b c d).
 Definition dTask : dec task :=
@@ -47,7 +47,7 @@ Definition dGraph : dec graph := dList (dPair dZ (dList dZ)).
 (* ---------- encoders ---------- *)
 Definition eZ (x : Z) : list Z := [x].
 Definition ePolicy (p : policy) : list Z :=
-  [p_action p; p_event p] ++ eList eZ (p_events p) ++ eOpt eZ (p_exit p).
+  [p_action p; p_event p] ++ eList eZ (p_events p) ++ eOpt eZ (p_exit p) ++ [p_timeout p].
 Definition ePart (p : part) : list Z := [pp_total p; pp_size p; pp_min p; pp_nt p].
 Definition eTask (t : task) : list Z :=
   [t_name t; t_replicas t] ++ eOpt eZ (t_minavail t) ++
